@@ -33,7 +33,11 @@ def ENCODED():
     import ethosu.vela.hillclimb_allocation as hc
     import ethosu.vela.vela as vela
 
-    return [hc.HillClimbAllocator.allocate, hc.HillClimbAllocator.search, hc.HillClimbAllocator.attempt_bottleneck_fix, vela.convert, vela.convert_bytes, vela.main]
+    return [hc.HillClimbAllocator.allocate, hc.HillClimbAllocator.search, hc.HillClimbAllocator.attempt_bottleneck_fix, vela.convert, vela.convert_bytes, vela.main,
+            __import__("ethosu.vela.debug_database", fromlist=["x"]).DebugDatabase.clean_db,
+            __import__("ethosu.vela.debug_database", fromlist=["x"]).DebugDatabase.add_source,
+            __import__("ethosu.vela.debug_database", fromlist=["x"]).DebugDatabase.add_optimised,
+            __import__("ethosu.vela.debug_database", fromlist=["x"]).DebugDatabase.add_command]
 
 
 def hc_seeded(V, times, aligns):
@@ -304,6 +308,71 @@ class _Obj:
         self.__dict__.update(kw)
 
 
+def debug_db_twice(V):
+    """the debug database of a compilation does not depend on what was compiled before it in the same process: the REAL DebugDatabase (class-level
+    tables) is filled for a network A of 0..3 operators (symbolic choice), cleaned with the REAL clean_db() as main() does between compilations, and
+    filled for network B (two source operators with symbolic OFM sizes, an optimised operator per source operator plus one whose parent is not in
+    the network, one command stream, two commands); B's four tables equal the ones B gets in a fresh database - ids restart at 0."""
+    from ethosu.vela.debug_database import DebugDatabase as DB
+    from ethosu.vela.operation import Op, Operation
+    from ethosu.vela.tensor import Tensor
+    from ethosu.vela.data_type import DataType
+
+    n_before = V.choice("operators of the earlier compilation", (0, 1, 2, 3))
+    h, w = V.int("ofm_h", 1, 4096), V.int("ofm_w", 1, 4096)
+
+    def mkop(name, oh, ow):
+        op = Operation(Op.AvgPool, name)
+        op.attrs = {"ksize": (1, 2, 2, 1), "strides": (1, 1, 1, 1)}
+        op.inputs = [Tensor([1, 8, 8, 4], DataType.int8, name + "_in")]
+        op.set_output_tensor(Tensor([1, oh, ow, 4], DataType.int8, name + "_out"))
+        return op
+
+    def network_b():
+        a, b, c = mkop("b0", h, w), mkop("b1", w, h), mkop("b2", 4, 4)
+        DB.add_source(a)
+        DB.add_source(b)
+        DB.add_optimised(a, a)
+        DB.add_optimised(b, b)
+        DB.add_optimised(c, c)  # an operator created by the optimiser: its parent is not in the source network
+        sid = DB.add_stream("sg")
+        DB.add_command(sid, 0, a)
+        DB.add_command(sid, 8, b)
+        DB.set_stream_offset("sg", 64)
+        return [list(map(list, t)) for t in (DB._sourceTable, DB._optimisedTable, DB._queueTable, DB._streamTable)]
+
+    saved = {k: getattr(DB, k) for k in ("_sourceUID", "_sourceTable", "_optimisedUID", "_optimisedTable", "_queueTable", "_streamUID", "_streamTable")}
+    try:
+        for k in saved:  # a fresh process
+            setattr(DB, k, type(saved[k])())
+        alone = network_b()
+        for k in saved:
+            setattr(DB, k, type(saved[k])())
+        for i in range(n_before):
+            o = mkop("a%d" % i, 2, 2)
+            DB.add_source(o)
+            DB.add_optimised(o, o)
+        if n_before:
+            DB.add_command(DB.add_stream("sg_a"), 0, o)
+        DB.clean_db()
+        after = network_b()
+    finally:
+        for k, v in saved.items():
+            setattr(DB, k, v)
+    cl = []
+    for name, t1, t2 in zip(("source", "optimised", "queue", "cmdstream"), alone, after):
+        same_shape = len(t1) == len(t2) and all(len(r1) == len(r2) for r1, r2 in zip(t1, t2))
+        cl.append(("%s table has the same rows after %d earlier operators" % (name, n_before), same_shape))
+        if same_shape:
+            for i, (r1, r2) in enumerate(zip(t1, t2)):
+                for j, (x, y) in enumerate(zip(r1, r2)):
+                    if isinstance(x, str) or isinstance(y, str):
+                        cl.append(("%s[%d][%d] equal" % (name, i, j), x == y))
+                    else:
+                        cl.append(("%s[%d][%d] equal (ids restart at 0)" % (name, i, j), L(x) == L(y)))
+    return cl
+
+
 def hc_twice(V, times, aligns):
     """the same allocation problem solved twice in one process - with other users of the random module in between - gets the same addresses: the REAL
     HillClimbAllocator.allocate() with the REAL random module, symbolic sizes (the draws of the search depend on list lengths only)"""
@@ -328,7 +397,7 @@ def hc_twice(V, times, aligns):
     return [("range %d gets the same address in both runs" % i, L(res[0][i]) == L(res[1][i])) for i in range(n)]
 
 
-FUNCS = {"opcode_order": opcode_order, "hc_twice": hc_twice, "hc_seeded": hc_seeded, "entry_points": entry_points, "payload_sequence": _from("c17", "sequence"), "build_twice": _from("c03", "build_twice"),
+FUNCS = {"debug_db_twice": debug_db_twice, "opcode_order": opcode_order, "hc_twice": hc_twice, "hc_seeded": hc_seeded, "entry_points": entry_points, "payload_sequence": _from("c17", "sequence"), "build_twice": _from("c03", "build_twice"),
          "cache_key": _from("c08", "cache_key"), "scale_cache_key": _from("c08", "scale_cache_key"), "cache": _from("c08", "cache"),
          "lut_identity": _from("c19", "lut_identity"), "footprint_strided": _from("c02", "footprint_strided")}
 
@@ -349,6 +418,7 @@ def instances(tier, seed):
         out.append(dict(key="hc_twice/%d" % i, fn="hc_twice", params=dict(times=[list(t) for t in tv], aligns=[16, 64, 16][:len(tv)]), weight=500))
     for n in (3, 4, 5):
         out.append(dict(key="opcode_order/%d" % n, fn="opcode_order", params=dict(n=n)))
+    out.append(dict(key="debug_db_twice", fn="debug_db_twice", params={}))
     take = {"c17": ("sequence", "payload_sequence"), "c03": ("build_twice", "build_twice"), "c19": ("lut_identity", "lut_identity"), "c02": ("footprint_strided", "footprint_strided")}
     for modname, mod in (("c17", c17), ("c03", c03), ("c19", c19), ("c02", c02)):
         src, dst = take[modname]
